@@ -374,6 +374,10 @@ def run(prop, tier, seed):
             report(out, prop, rcfg_, seed * 31 + j, label, lines, divs, seen_all)
     out.notes["real_calls_by_action"] = actcount
     out.notes["real_results"] = rescount
+    if prop == "C02":
+        # DAO transfers and burns (the other explicit movers of C02) are governance transactions: Gov.tla
+        from props import gov
+        gov.stage(out, "C02", tier, seed)
     return out
 
 
